@@ -76,7 +76,8 @@ Record player := mkP {
   ptlock : option nat;      (* thread.lock: holder tid (ghost owner; Python's Lock is a flag) *)
   pgo : bool;               (* thread.go *)
   phalting : bool;          (* thread.halting *)
-  popen : bool              (* the device stream is open (member of PyAudio._streams) *)
+  popen : bool;             (* the device stream is open (member of PyAudio._streams) *)
+  pafter : nat              (* ghost: chunks written while thread.halting was already true *)
 }.
 
 Inductive ctl := KPause | KResume | KStop
@@ -117,6 +118,7 @@ Inductive mpc :=
 Inductive event :=
 | EOpen (p : nat) | EWrite (p : nat) (c : chunk) | EStopS (p : nat) | EStartS (p : nat)
 | ECloseS (p : nat) | ETerminate | EPlayRaise | EAssertFail
+| EHalt (p : nat)                            (* thread.halting = True (stop) *)
 | ECloseRet (flags : list (bool * bool)).   (* per player (alive, halting) when close returns *)
 
 Record state := mkS {
@@ -145,12 +147,13 @@ Definition set_mpc s v := mkS (swait s) (sfinished s) (shlock s) (smlock s) (sth
 Definition set_script s v := mkS (swait s) (sfinished s) (shlock s) (smlock s) (sthreads s) (sstarted s) (sterminated s) (splayers s) (smpc s) v (strace s).
 Definition emit s e := mkS (swait s) (sfinished s) (shlock s) (smlock s) (sthreads s) (sstarted s) (sterminated s) (splayers s) (smpc s) (sscript s) (e :: strace s).
 
-Definition p_set_pc p v := mkP v (paudio p) (prem p) (pwritten p) (ptlock p) (pgo p) (phalting p) (popen p).
-Definition p_set_tlock p v := mkP (ppc_ p) (paudio p) (prem p) (pwritten p) v (pgo p) (phalting p) (popen p).
-Definition p_set_go p v := mkP (ppc_ p) (paudio p) (prem p) (pwritten p) (ptlock p) v (phalting p) (popen p).
-Definition p_set_halting p v := mkP (ppc_ p) (paudio p) (prem p) (pwritten p) (ptlock p) (pgo p) v (popen p).
-Definition p_set_open p v := mkP (ppc_ p) (paudio p) (prem p) (pwritten p) (ptlock p) (pgo p) (phalting p) v.
-Definition p_write p c r := mkP (ppc_ p) (paudio p) r (pwritten p ++ [c]) (ptlock p) (pgo p) (phalting p) (popen p).
+Definition p_set_pc p v := mkP v (paudio p) (prem p) (pwritten p) (ptlock p) (pgo p) (phalting p) (popen p) (pafter p).
+Definition p_set_tlock p v := mkP (ppc_ p) (paudio p) (prem p) (pwritten p) v (pgo p) (phalting p) (popen p) (pafter p).
+Definition p_set_go p v := mkP (ppc_ p) (paudio p) (prem p) (pwritten p) (ptlock p) v (phalting p) (popen p) (pafter p).
+Definition p_set_halting p v := mkP (ppc_ p) (paudio p) (prem p) (pwritten p) (ptlock p) (pgo p) v (popen p) (pafter p).
+Definition p_set_open p v := mkP (ppc_ p) (paudio p) (prem p) (pwritten p) (ptlock p) (pgo p) (phalting p) v (pafter p).
+Definition p_write p c r := mkP (ppc_ p) (paudio p) r (pwritten p ++ [c]) (ptlock p) (pgo p) (phalting p) (popen p)
+  (if phalting p then S (pafter p) else pafter p).
 
 Fixpoint upd {A} (i : nat) (f : A -> A) (l : list A) : list A :=
   match l, i with
@@ -170,7 +173,7 @@ Fixpoint mem (x : nat) (l : list nat) : bool :=
   match l with [] => false | y :: r => Nat.eqb x y || mem x r end.
 
 (* a freshly constructed AudioThread: Lock() free, Event() clear, nothing written, no stream yet *)
-Definition new_player (a : list chunk) : player := mkP PNew a a [] None false false false.
+Definition new_player (a : list chunk) : player := mkP PNew a a [] None false false false 0.
 
 Definition p_alive (p : player) : bool :=
   match ppc_ p with PNew | PDone => false | _ => true end.
@@ -255,7 +258,7 @@ Definition step_main (s : state) : option state :=
                                           end)
   | MPauseClear t => Some (set_mpc (upd_player s t (fun q => p_set_go q false)) (MCtlRel false t))
   | MResumeSet c t => Some (set_mpc (upd_player s t (fun q => p_set_go q true)) (MCtlRel c t))
-  | MStopHalt c t => Some (set_mpc (upd_player s t (fun q => p_set_halting q true)) (MStopSet c t))
+  | MStopHalt c t => Some (set_mpc (emit (upd_player s t (fun q => p_set_halting q true)) (EHalt t)) (MStopSet c t))
   | MStopSet c t => Some (set_mpc (upd_player s t (fun q => p_set_go q true)) (MCtlRel c t))
   | MCtlRel c t =>
       let s1 := upd_player s t (fun q => p_set_tlock q None) in
